@@ -660,4 +660,276 @@ Proof.
   - apply (so_meta _ _ _ S). exact Hm.
 Qed.
 
+(* ------------------------------------------------------------------------- *)
+(* a late instance equals the first one *)
+
+Transparent alloc mutate_at.
+
+Record twin (k : cid) (r : region) (i1 i2 : iid) (h1 h2 : heap) : Prop := {
+  tw_shared : forall key, sstore h1 key = sstore h2 key;
+  tw_obj0 : forall n, obj h1 (0%nat, n) = obj h2 (0%nat, n);
+  tw_obj : forall n, obj h1 (r, n) = obj h2 (r, n);
+  tw_ctr : ctr h1 r = ctr h2 r;
+  tw_store : forall a, istore h1 i1 a = istore h2 i2 a;
+  tw_meta1 : imeta h1 i1 = Some (k, r);
+  tw_meta2 : imeta h2 i2 = Some (k, r)
+}.
+
+Lemma twin_getattr k r i1 i2 h1 h2 a : twin k r i1 i2 h1 h2 ->
+  getattr T h1 i1 a = getattr T h2 i2 a.
+Proof.
+  intros W. unfold getattr, class_lookup. rewrite (tw_store _ _ _ _ _ _ W), (tw_meta1 _ _ _ _ _ _ W),
+    (tw_meta2 _ _ _ _ _ _ W).
+  destruct (istore h2 i2 a); [reflexivity|]. destruct (find_class T k); [|reflexivity].
+  destruct (assoc a (c_cattrs c)); [|reflexivity]. apply W.
+Qed.
+
+Lemma twin_obj_near k r i1 i2 h1 h2 l : twin k r i1 i2 h1 h2 ->
+  (fst l = r \/ fst l = 0%nat) -> obj h1 l = obj h2 l.
+Proof. intros W. destruct l as [r' n]. cbn. intros [->| ->]; apply W. Qed.
+
+Lemma twin_alloc k r i1 i2 h1 h2 c : twin k r i1 i2 h1 h2 -> r <> 0%nat ->
+  twin k r i1 i2 (fst (alloc h1 r c)) (fst (alloc h2 r c)) /\ snd (alloc h1 r c) = snd (alloc h2 r c).
+Proof.
+  intros W Hr. unfold alloc. cbn. rewrite (tw_ctr _ _ _ _ _ _ W). split; [|reflexivity].
+  split; cbn; try apply W.
+  - intros n. rewrite (tw_obj0 _ _ _ _ _ _ W). reflexivity.
+  - intros n. rewrite (tw_obj _ _ _ _ _ _ W). reflexivity.
+  - rewrite Nat.eqb_refl. reflexivity.
+Qed.
+
+Lemma twin_set_iattr k r i1 i2 h1 h2 a v : twin k r i1 i2 h1 h2 ->
+  twin k r i1 i2 (set_iattr h1 i1 a v) (set_iattr h2 i2 a v).
+Proof.
+  intros W. split; cbn; try apply W.
+  intros a'. rewrite !Nat.eqb_refl. cbn. destruct (String.eqb a' a); [reflexivity|apply W].
+Qed.
+
+Lemma twin_mutate k r i1 i2 h1 h2 l c : twin k r i1 i2 h1 h2 ->
+  (fst l = r \/ fst l = 0%nat) ->
+  twin k r i1 i2 (mutate_at h1 l c) (mutate_at h2 l c).
+Proof.
+  intros W Hl. unfold mutate_at. rewrite (twin_obj_near _ _ _ _ _ _ _ W Hl).
+  destruct (obj h2 l); [|exact W].
+  split; cbn; try apply W.
+  - intros n. rewrite (tw_obj0 _ _ _ _ _ _ W). reflexivity.
+  - intros n. rewrite (tw_obj _ _ _ _ _ _ W). reflexivity.
+Qed.
+
+Definition no_other (s : src) : bool := match s with SOther _ _ => false | _ => true end.
+
+Lemma twin_eval k r i1 i2 h1 h2 p1 p2 s :
+  twin k r i1 i2 h1 h2 -> InvP p1 h1 -> InvP p2 h2 -> r <> 0%nat -> no_other s = true ->
+  match eval_src T h1 i1 r s, eval_src T h2 i2 r s with
+  | Some (h1', v1), Some (h2', v2) => twin k r i1 i2 h1' h2' /\ v1 = v2
+  | None, None => True
+  | _, _ => False
+  end.
+Proof.
+  intros W HI1 HI2 Hr Hno. destruct s as [z|c|b|b|key|j b]; cbn [eval_src]; try discriminate.
+  - auto.
+  - destruct (twin_alloc _ _ _ _ _ _ c W Hr) as [W' L].
+    destruct (alloc h1 r c) as [a1 l1], (alloc h2 r c) as [a2 l2]. cbn in *. subst. auto.
+  - rewrite <- (twin_getattr _ _ _ _ _ _ b W).
+    destruct (getattr T h1 i1 b) as [[z|l]|] eqn:Hg; auto.
+    assert (Hn : fst l = r \/ fst l = 0%nat).
+    { apply (getattr_near _ _ _ _ _ _ _ HI1 (tw_meta1 _ _ _ _ _ _ W) Hg). }
+    rewrite <- (twin_obj_near _ _ _ _ _ _ _ W Hn). destruct (obj h1 l) as [c|]; auto.
+    destruct (twin_alloc _ _ _ _ _ _ c W Hr) as [W' L].
+    destruct (alloc h1 r c) as [a1 l1], (alloc h2 r c) as [a2 l2]. cbn in *. subst. auto.
+  - rewrite <- (twin_getattr _ _ _ _ _ _ b W). destruct (getattr T h1 i1 b); auto.
+  - rewrite <- (tw_shared _ _ _ _ _ _ W). destruct (sstore h1 key); auto.
+Qed.
+
+Definition op_no_other (o : op) : bool :=
+  match o with ORebind _ s => no_other s | _ => true end.
+
+Lemma twin_step k r ci i1 i2 h1 h2 p1 p2 o :
+  twin k r i1 i2 h1 h2 -> InvP p1 h1 -> InvP p2 h2 -> find_class T k = Some ci ->
+  op_allowed ci o = true -> op_no_other o = true ->
+  match step_op_opt T h1 i1 o, step_op_opt T h2 i2 o with
+  | Some h1', Some h2' => twin k r i1 i2 h1' h2'
+  | None, None => True
+  | _, _ => False
+  end.
+Proof.
+  intros W HI1 HI2 Hf Hal Hno.
+  pose proof (closed_facts _ _ Hf) as CF.
+  destruct (inv_reg _ _ HI1 _ _ _ (tw_meta1 _ _ _ _ _ _ W)) as [Hr _].
+  unfold step_op_opt. rewrite (tw_meta1 _ _ _ _ _ _ W), (tw_meta2 _ _ _ _ _ _ W).
+  destruct o as [a s|a c|a|key c|key s]; cbn in Hal, Hno.
+  - pose proof (twin_eval _ _ _ _ _ _ _ _ s W HI1 HI2 Hr Hno) as E.
+    destruct (eval_src T h1 i1 r s) as [[h1' v1]|], (eval_src T h2 i2 r s) as [[h2' v2]|]; auto.
+    destruct E as [W' ->]. apply twin_set_iattr. exact W'.
+  - rewrite <- (twin_getattr _ _ _ _ _ _ a W).
+    destruct (getattr T h1 i1 a) as [[z|l]|] eqn:Hg; auto.
+    apply twin_mutate; [exact W|].
+    apply (getattr_near _ _ _ _ _ _ _ HI1 (tw_meta1 _ _ _ _ _ _ W) Hg).
+  - rewrite <- (tw_store _ _ _ _ _ _ W). destruct (istore h1 i1 a); auto.
+    apply twin_set_iattr. exact W.
+  - rewrite (cf_smut _ _ CF) in Hal. discriminate.
+  - rewrite (cf_srebind _ _ CF) in Hal. discriminate.
+Qed.
+
+Lemma script_no_other ci X o rest : script_conf ci X (o :: rest) = true -> op_no_other o = true.
+Proof.
+  intros H. destruct (script_conf_step _ _ _ _ H) as (_ & Hu & _).
+  destruct o as [a s| | | |]; cbn in *; auto. destruct s; cbn in *; auto.
+Qed.
+
+Lemma twin_script k r ci i1 i2 : forall script X h1 h2,
+  twin k r i1 i2 h1 h2 -> InvP (Some (i1, X)) h1 -> InvP (Some (i2, X)) h2 ->
+  find_class T k = Some ci -> script_conf ci X script = true ->
+  match run_script T h1 i1 script, run_script T h2 i2 script with
+  | Some h1', Some h2' => twin k r i1 i2 h1' h2'
+  | None, None => True
+  | _, _ => False
+  end.
+Proof.
+  induction script as [|o rest IH]; intros X h1 h2 W HI1 HI2 Hf Hc; cbn [run_script].
+  - exact W.
+  - destruct (script_conf_step _ _ _ _ Hc) as (Hal & Huse & Hrest).
+    pose proof (script_no_other _ _ _ _ Hc) as Hno.
+    pose proof (twin_step _ _ _ _ _ _ _ _ _ o W HI1 HI2 Hf Hal Hno) as E.
+    destruct (step_op_opt T h1 i1 o) as [h1'|] eqn:Hs1, (step_op_opt T h2 i2 o) as [h2'|] eqn:Hs2;
+      try contradiction; auto.
+    assert (Hok1 : op_ok_for (Some (i1, X)) i1 o) by (cbn; rewrite Nat.eqb_refl; exact Huse).
+    assert (Hok2 : op_ok_for (Some (i2, X)) i2 o) by (cbn; rewrite Nat.eqb_refl; exact Huse).
+    destruct (step_op_inv _ _ _ _ _ _ _ _ HI1 (tw_meta1 _ _ _ _ _ _ W) Hf Hal Hok1 Hs1) as (HI1' & _ & _).
+    destruct (step_op_inv _ _ _ _ _ _ _ _ HI2 (tw_meta2 _ _ _ _ _ _ W) Hf Hal Hok2 Hs2) as (HI2' & _ & _).
+    cbn in HI1', HI2'. rewrite Nat.eqb_refl in HI1', HI2'.
+    exact (IH (next_X X o) h1' h2' E HI1' HI2' Hf Hrest).
+Qed.
+
+Definition fresh_region (h : heap) (r : region) : Prop :=
+  ctr h r = 0%nat /\ (forall n, obj h (r, n) = None) /\ (forall j k, imeta h j <> Some (k, r)).
+
+Lemma same_on_fresh r h h' : same_on r h h' -> fresh_region h r -> fresh_region h' r.
+Proof.
+  intros S (C & Ob & M). split; [|split].
+  - rewrite (so_ctr _ _ _ S). exact C.
+  - intros n. rewrite (so_obj _ _ _ S). apply Ob.
+  - intros j k Hj. apply (so_meta _ _ _ S) in Hj. exact (M _ _ Hj).
+Qed.
+
+(* two heaps with the same shared part, in both of which region r is unused: constructing an
+   instance of class k there gives the same result (same success/failure, same view) *)
+Theorem fresh_equal_inv h1 h2 k r script :
+  Inv h1 -> Inv h2 ->
+  (forall key, sstore h1 key = sstore h2 key) -> (forall n, obj h1 (0%nat, n) = obj h2 (0%nat, n)) ->
+  fresh_region h1 r -> fresh_region h2 r ->
+  allowedb T h1 (ENew k r script) = true ->
+  let h1' := step T h1 (ENew k r script) in
+  let h2' := step T h2 (ENew k r script) in
+  (imeta h1' (icount h1) = Some (k, r) <-> imeta h2' (icount h2) = Some (k, r)) /\
+  (forall a, view T h1' (icount h1) a = view T h2' (icount h2) a).
+Proof.
+  intros HI1 HI2 Hsh Ho0 (C1 & Ob1 & M1) (C2 & Ob2 & M2) Hal. cbn in Hal.
+  destruct (find_class T k) as [ci|] eqn:Hf; [|discriminate].
+  apply andb_true_iff in Hal as [Hr Hconf]. apply negb_true_iff, Nat.eqb_neq in Hr.
+  cbn [step]. destruct r as [|r']; [contradiction|]. set (r := S r') in *.
+  pose proof (imeta_next_none _ HI1) as N1. pose proof (imeta_next_none _ HI2) as N2.
+  assert (W : twin k r (icount h1) (icount h2) (new_inst h1 k r) (new_inst h2 k r)).
+  { split; cbn; auto.
+    - intros n. rewrite Ob1, Ob2. reflexivity.
+    - congruence.
+    - intros a. rewrite (inv_dead _ _ HI1 _ a N1), (inv_dead _ _ HI2 _ a N2). reflexivity.
+    - rewrite Nat.eqb_refl. reflexivity.
+    - rewrite Nat.eqb_refl. reflexivity. }
+  pose proof (new_inst_inv h1 k r ci HI1 Hr Hf) as P1.
+  pose proof (new_inst_inv h2 k r ci HI2 Hr Hf) as P2.
+  pose proof (twin_script k r ci _ _ script _ _ _ W P1 P2 Hf Hconf) as E.
+  destruct (run_script T (new_inst h1 k r) (icount h1) script) as [h1'|] eqn:R1,
+           (run_script T (new_inst h2 k r) (icount h2) script) as [h2'|] eqn:R2; try contradiction.
+  - split.
+    + rewrite (tw_meta1 _ _ _ _ _ _ E), (tw_meta2 _ _ _ _ _ _ E). tauto.
+    + intros a. unfold view. rewrite (twin_getattr _ _ _ _ _ _ a E).
+      destruct (getattr T h2' (icount h2) a) as [[z|l]|] eqn:Hg; cbn; try reflexivity.
+      f_equal. eapply twin_obj_near; eauto.
+      assert (Hm2 : imeta (new_inst h2 k r) (icount h2) = Some (k, r)) by apply W.
+      destruct (run_script_inv ci k r _ _ _ _ _ P2 Hm2 Hf Hconf R2) as (HI2' & _ & _).
+      apply (getattr_near _ _ _ _ _ _ _ HI2' (tw_meta2 _ _ _ _ _ _ E) Hg).
+  - split.
+    + rewrite N1, N2. split; discriminate.
+    + intros a. unfold view, getattr. rewrite N1, N2, (inv_dead _ _ HI1 _ a N1), (inv_dead _ _ HI2 _ a N2).
+      reflexivity.
+Qed.
+
+(* ------------------------------------------------------------------------- *)
+(* reachable heaps *)
+
+Definition wf0 (h : heap) : Prop :=
+  (forall i, imeta h i = None) /\ (forall i a, istore h i a = None) /\
+  (forall key v, sstore h key = Some v -> near_val 0%nat v).
+
+Lemma wf0_inv h : wf0 h -> Inv h.
+Proof.
+  intros (M & S & Sh). split.
+  - exact Sh.
+  - intros i k r a v Hm. rewrite M in Hm. discriminate.
+  - intros i k r Hm. rewrite M in Hm. discriminate.
+  - intros i k r Hm. rewrite M in Hm. discriminate.
+  - intros i a _. apply S.
+  - intros i k r a v Hm. rewrite M in Hm. discriminate.
+Qed.
+
+Inductive reachable (h0 : heap) : heap -> Prop :=
+| reach_boot : reachable h0 h0
+| reach_step h e : reachable h0 h -> allowedb T h e = true -> reachable h0 (step T h e).
+
+Lemma allowed_step_inv h e : Inv h -> allowedb T h e = true -> Inv (step T h e).
+Proof.
+  intros HI Hal. destruct (allowed_region h e HI Hal) as (r & Hr & Hr0).
+  apply (step_inv h e 0%nat HI Hal). rewrite Hr. congruence.
+Qed.
+
+Lemma reachable_inv h0 h : wf0 h0 -> reachable h0 h -> Inv h.
+Proof.
+  intros H0 R. induction R.
+  - apply wf0_inv. exact H0.
+  - apply allowed_step_inv; auto.
+Qed.
+
+Theorem noninterference h0 h rB evs B kB :
+  wf0 h0 -> reachable h0 h -> imeta h B = Some (kB, rB) -> all_ok rB h evs ->
+  (forall a, view T (run T h evs) B a = view T h B a) /\
+  (forall key, sview (run T h evs) key = sview h key) /\
+  (forall key, sstore (run T h evs) key = sstore h key) /\
+  imeta (run T h evs) B = Some (kB, rB).
+Proof.
+  intros H0 R. apply noninterference_inv. eapply reachable_inv; eauto.
+Qed.
+
+(* the shared store never changes at all, whatever the devices do *)
+Theorem shared_store_frozen h0 h :
+  wf0 h0 -> reachable h0 h ->
+  (forall key, sstore h key = sstore h0 key) /\ (forall key, sview h key = sview h0 key).
+Proof.
+  intros H0 R. induction R.
+  - auto.
+  - destruct IHR as [A B]. pose proof (reachable_inv _ _ H0 R) as HI.
+    destruct (allowed_region h e HI H) as (r & Hr & Hr0).
+    destruct (step_inv h e 0%nat HI H) as [_ S]; [rewrite Hr; congruence|].
+    split; intros key.
+    + rewrite (so_shared _ _ _ S). apply A.
+    + rewrite (same_on_sview _ _ _ key HI S). apply B.
+Qed.
+
+Theorem fresh_equals_first h0 r evs k script :
+  wf0 h0 -> fresh_region h0 r -> all_ok r h0 evs ->
+  allowedb T (run T h0 evs) (ENew k r script) = true ->
+  let h := run T h0 evs in
+  let late := step T h (ENew k r script) in
+  let first := step T h0 (ENew k r script) in
+  (imeta late (icount h) = Some (k, r) <-> imeta first (icount h0) = Some (k, r)) /\
+  (forall a, view T late (icount h) a = view T first (icount h0) a).
+Proof.
+  intros H0 Hfr Hok Hal. pose proof (wf0_inv _ H0) as HI0.
+  destruct (run_inv r evs h0 HI0 Hok) as [HI S].
+  apply fresh_equal_inv; auto.
+  - apply S.
+  - apply S.
+  - eapply same_on_fresh; eauto.
+Qed.
+
 End Closed.
